@@ -29,7 +29,7 @@ ASSUMPTIONS = ["serial generation only (the statement excludes parallel generati
 NSHARDS = {"quick": 16, "thorough": 16}
 OPS = ["consume-random", "consume-numpy", "consume-torch", "reseed-random", "reseed-numpy", "reseed-torch", "other-config",
        "generate-other", "from_config-other", "generate-other-parallel", "tokenize-shuffling", "call-generator", "same-config-again",
-       "read-saved-dataset", "read-damaged-file", "from_config-meets-damaged-cache"]
+       "read-saved-dataset", "read-damaged-file", "from_config-meets-damaged-cache", "other-config-with-user-generator"]
 THRESHOLDS = {"quick": {**{f"c04:op:{o}": 10 for o in OPS}, "c04:configs": 40, "c04:histories": 200, "c04:hashseeds": 3,
                         "c04:from_config": 40, "c04:verbose-runs": 60, "c04:configs>=1000-mazes": 2, "c04:configs-dedup-then-cut": 8, "c04:from_config-with-filters": 15, "c04:cfg-unchanged-checked": 200,
                         "c04:child-processes": 30, "c04:gen:gen_dfs": 1, "c04:gen:gen_wilson": 1, "c04:gen:gen_percolation": 1,
@@ -170,6 +170,25 @@ def history_ops(ctx, rng, specs, spec, P_state):
             elif op == "call-generator":
                 g = ["gen_dfs", "gen_wilson", "gen_percolation", "gen_dfs_percolation"][int(rng.integers(4))]
                 GENERATORS_MAP[g](np.array([3, 3]))
+            elif op == "other-config-with-user-generator":
+                # another configuration object whose generator is the caller's own function - a wrapper around a library generator that
+                # keeps its name (functools.wraps) but fixes an argument; it is only constructed and looked at, never generated
+                import functools
+
+                gname = spec["gen"] if rng.random() < 0.6 else ["gen_dfs", "gen_wilson", "gen_percolation", "gen_dfs_percolation", "gen_prim"][int(rng.integers(5))]
+                lib_fn = GENERATORS_MAP[gname]
+
+                @functools.wraps(lib_fn)
+                def user_gen(grid_shape, _lib_fn=lib_fn, **kw):
+                    kw.pop("start_coord", None)
+                    return _lib_fn(grid_shape, start_coord=(0, 0), **kw)
+
+                try:
+                    uc = MazeDatasetConfig(name="users-own", grid_n=3, n_mazes=2, maze_ctor=user_gen, seed=int(rng.integers(1 << 30)))
+                    uc.serialize()
+                    uc.to_fname()
+                except Exception:  # noqa: BLE001
+                    ctx.tally("c04:user-generator-config-rejected(not judged)")
             elif op in ("read-saved-dataset", "read-damaged-file", "from_config-meets-damaged-cache"):
                 # earlier reads of saved datasets in the same process: a good file, a half-written / foreign one the caller recovers from,
                 # and the config-driven entry point finding such a file where its cache would be
